@@ -761,33 +761,33 @@ theorem c07_token_bound_to_original_prompt (cfg : Cfg) (H : Hashes) (ops : List 
 
 /-- What the caller of `run` — or, when it raises, the callback — gets to see is exactly the result the request
     produced (`Out.result`): every statement above about `result` is a statement about what is delivered. -/
-theorem c07_delivery_is_the_result (hk : Hooks) (t : Tally) (o : Out) (h : o.kind ≠ .admin) :
-    (deliver hk t o).2.seen = o.result := by
+theorem c07_delivery_is_the_result (hk : Hooks) (t : Tally) (o : Out) (pf : Bool) (h : o.kind ≠ .admin) :
+    (deliver hk t o pf).2.seen = o.result := by
   obtain ⟨k, r⟩ := o
   obtain ⟨hb, hp⟩ := hk
   cases k <;> cases r <;> simp [deliver, Delivery.seen] at h ⊢
   rename_i ev r
-  cases hbl : r.blocked <;> cases hb <;> cases hp <;> simp
+  cases hbl : r.blocked <;> cases hb <;> cases hp <;> cases pf <;> simp
 
 /-- The `on_permit` callback — the other way the guard announces that a request passes — is invoked only for a
     request that was decided just now (never for a cache hit, a CIRCUIT_OPEN reply or an agent exception) by
     verdicts of both agents that satisfy the configured gate logic; `on_block` is invoked only with a blocked
     result. -/
-theorem c07_callbacks_only_for_decided_requests (hk : Hooks) (t : Tally) (cfg : Cfg) (H : Hashes) (s : State)
+theorem c07_callbacks_only_for_decided_requests (hk : Hooks) (t : Tally) (pf : Bool) (cfg : Cfg) (H : Hashes) (s : State)
     (p : Prompt) (zr yr : Resp) :
-    ((deliver hk t (run cfg H s p zr yr).2).1.permitHookCalls ≠ t.permitHookCalls →
+    ((deliver hk t (run cfg H s p zr yr).2 pf).1.permitHookCalls ≠ t.permitHookCalls →
       ∃ z y, zr = .ret z ∧ yr = .ret y ∧ criterion cfg.gate z y = true ∧
         (run cfg H s p zr yr).2.result = some (gateResult H cfg.gate p z y) ∧
         (gateResult H cfg.gate p z y).blocked = false) ∧
-    ((deliver hk t (run cfg H s p zr yr).2).1.blockHookCalls ≠ t.blockHookCalls →
+    ((deliver hk t (run cfg H s p zr yr).2 pf).1.blockHookCalls ≠ t.blockHookCalls →
       ∃ z y, zr = .ret z ∧ yr = .ret y ∧
         (run cfg H s p zr yr).2.result = some (gateResult H cfg.gate p z y) ∧
         (gateResult H cfg.gate p z y).blocked = true) := by
   have key : ∀ o : Out,
-      (((deliver hk t o).1.permitHookCalls ≠ t.permitHookCalls ∨ (deliver hk t o).1.blockHookCalls ≠ t.blockHookCalls) →
+      (((deliver hk t o pf).1.permitHookCalls ≠ t.permitHookCalls ∨ (deliver hk t o pf).1.blockHookCalls ≠ t.blockHookCalls) →
         ∃ ev r, o = ⟨.gated ev, some r⟩ ∧
-          ((deliver hk t o).1.permitHookCalls ≠ t.permitHookCalls → r.blocked = false) ∧
-          ((deliver hk t o).1.blockHookCalls ≠ t.blockHookCalls → r.blocked = true)) := by
+          ((deliver hk t o pf).1.permitHookCalls ≠ t.permitHookCalls → r.blocked = false) ∧
+          ((deliver hk t o pf).1.blockHookCalls ≠ t.blockHookCalls → r.blocked = true)) := by
     intro o hne
     obtain ⟨k, r⟩ := o
     obtain ⟨hb, hp⟩ := hk
@@ -816,6 +816,26 @@ theorem c07_callbacks_only_for_decided_requests (hk : Hooks) (t : Tally) (cfg : 
     have hb : r.blocked = true := hq hne
     subst hr
     exact ⟨z, y, hz, hy, by rw [ho], hb⟩
+
+/-! ### payloads that cannot be rendered (`runP`) -/
+
+/-- Whatever the payloads of the agents' answers: a result that `runP` produces is the result `run` produces on
+    the same verdicts — every clause above transfers — and when rendering a payload fails inside the gate nothing
+    comes back at all (`run` raises out of `_apply_gate_logic`; nothing is cached either: `c08_unrenderable_payload_partial`). -/
+theorem c07_unrenderable_payload_nothing_extra_passes (cfg : Cfg) (H : Hashes) (s : State) (p : Prompt) (zr yr : RespP) :
+    (∀ r, (runP cfg H s p zr yr).2.result = some r → (run cfg H s p zr.resp yr.resp).2.result = some r) ∧
+    (renderFails cfg.gate zr yr = false → runP cfg H s p zr yr = run cfg H s p zr.resp yr.resp) := by
+  rcases runP_cases cfg H s p zr yr with h | ⟨hf, _, h⟩
+  · exact ⟨fun r hr => (by rw [h] at hr; exact hr), fun _ => h⟩
+  · exact ⟨fun r hr => (by rw [h] at hr; simp at hr), fun h' => (by rw [hf] at h'; cases h')⟩
+
+/-- OPEN FINDING C07-unprintable-agent-exception, second witness: under AND logic an assessor BLOCK whose payload
+    cannot be rendered — the gate would answer BLOCKED — makes `run` raise instead (no reply); the same verdicts with a
+    renderable payload are answered BLOCKED. -/
+theorem c07_unrenderable_payload_escapes_witness :
+    (runP {} idHashes init ⟨1, true⟩ ⟨.ret .execute, true⟩ ⟨.ret .block, false⟩).2 = ⟨.raised, none⟩ ∧
+    (runP {} idHashes init ⟨1, true⟩ ⟨.ret .execute, true⟩ ⟨.ret .block, true⟩).2.result =
+      some ⟨true, .blocked, true, none, false⟩ := by decide
 
 /-! ### Non-vacuity: concrete requests and histories meeting the hypotheses -/
 
